@@ -33,6 +33,15 @@ STUBS = ["default mode: rotobj.RotobjVoronoi (3D, N>=4) -> contract stub: positi
 ASSUMPTIONS = ["sizes enumerated; stub geometry values symbolic, radii concrete (symbolic radii: C02, C05)", "float modelled by the reals"]
 OUTSIDE = ["sizes beyond the box", "the geometry library's behaviour itself"]
 GETTERS = ("get_full_grid_as_array", "get_total_volumes", "get_full_adjacency", "get_full_borders", "get_full_distances")
+# position-grid getters reachable through FullGrid.__getattr__ forwarding (shape n_o*n_t)
+POSGETTERS = ("get_adjacency_of_position_grid", "get_borders_of_position_grid", "get_distances_of_position_grid", "get_all_position_volumes")
+# call histories on ONE object ("any order" is part of "requesting its array, volumes, adjacency, borders and distances"): every getter of
+# the property must answer with the right shape whatever was asked before on the same object
+HISTORIES = {"listed_twice": GETTERS + GETTERS,
+             "reversed_then_listed": tuple(reversed(GETTERS)) + GETTERS,
+             "position_getters_first": POSGETTERS + GETTERS,
+             "borders_first": ("get_full_borders", "get_full_adjacency", "get_total_volumes", "get_full_distances", "get_full_grid_as_array"),
+             "distances_first": ("get_full_distances", "get_full_adjacency", "get_full_borders", "get_total_volumes")}
 
 
 def bounds(tier):
@@ -163,18 +172,18 @@ def run_shape(shape):
         with contextlib.ExitStack() as st:
             for c_ in ctx:
                 st.enter_context(c_)
-            try:
-                fg = F.FullGrid(f"{shape['alg_b']}{n_b}", f"{shape['alg_o']}{n_o}", _t_string(n_t), position_grid_cartesian=cart)
-            except Exception as e:  # noqa: BLE001
-                return {"__init__": e}
-            # radii stay the concrete parsed numbers here (C02/C05 cover symbolic radii): with symbolic radii the truthiness of
-            # arc*(R_k^2-R_{k-1}^2)/2 needs the NRA solver per entry, and `unknown` answers multiply paths at these sizes
-            for rnd in ("", "#again"):       # second pass on the SAME object: a getter must not spoil what another one needs later
-                for g in GETTERS:
+            for hname, hist in HISTORIES.items():
+                try:
+                    fg = F.FullGrid(f"{shape['alg_b']}{n_b}", f"{shape['alg_o']}{n_o}", _t_string(n_t), position_grid_cartesian=cart)
+                except Exception as e:  # noqa: BLE001
+                    return {"__init__": e}
+                # radii stay the concrete parsed numbers here (C02/C05 cover symbolic radii): with symbolic radii the truthiness of
+                # arc*(R_k^2-R_{k-1}^2)/2 needs the NRA solver per entry, and `unknown` answers multiply paths at these sizes
+                for step, g in enumerate(hist):
                     try:
-                        out[g + rnd] = getattr(fg, g)()
+                        out[f"{g}#{hname}#{step}"] = getattr(fg, g)()
                     except Exception as e:  # noqa: BLE001 - recorded per getter
-                        out[g + rnd] = e
+                        out[f"{g}#{hname}#{step}"] = e
         return out
 
     n = n_b * n_o * n_t
@@ -193,55 +202,61 @@ def run_shape(shape):
                 allowed = isinstance(v, ValueError) or (cart and n_o < 3 and type(v).__name__ == "QhullError")
                 acc.structural(f"no_internal_error:{g}", allowed, detail=f"{type(v).__name__}: {v}", cex=dict(cexinfo, kind="exception", exc=type(v).__name__))
                 continue
-            if g == "get_full_grid_as_array":
-                ok = tuple(np.shape(v)) == (n, 7)
-            elif g == "get_total_volumes":
-                ok = len(v) == n
-            else:
-                ok = tuple(v.shape) == (n, n)
+            ok = _shape_ok(g, v, n, n_o * n_t)
             acc.structural(f"shape:{g}", ok, detail=str(np.shape(v) if not hasattr(v, "shape") else v.shape), cex=cexinfo)
     return acc.result(eng.stats, prover.stats)
 
 
 # ------------------------------------------------------------------------------------------ replay: public API, real Qhull
+def _shape_ok(g, v, n, npos):
+    if g == "get_full_grid_as_array":
+        return tuple(np.shape(v)) == (n, 7)
+    if g == "get_total_volumes":
+        return len(v) == n
+    if g == "get_all_position_volumes":
+        return len(v) == npos
+    if g in POSGETTERS:
+        return v is not None and tuple(v.shape) == (npos, npos)
+    return v is not None and tuple(v.shape) == (n, n)
+
+
 def replay(cex):
     import contextlib as cl, io
     from molgri.space.fullgrid import FullGrid
     s = cex["shape"]
     g = cex.get("getter")
     n = s["n_b"] * s["n_o"] * s["n_t"]
-    call = f"FullGrid({s['alg_b']}{s['n_b']!r}, {s['alg_o']}{s['n_o']!r}, {_t_string(s['n_t'])!r}, position_grid_cartesian={s['cartesian']}).{g}()" + \
-        (" [after all five getters were called once on the same object]" if str(g).endswith("#again") else "")
-    again = isinstance(g, str) and g.endswith("#again")
-    g = g.split("#")[0] if isinstance(g, str) else g
+    if g == "__init__" or not isinstance(g, str) or "#" not in g:
+        hist, g0 = (), g
+    else:
+        g0, hname, step = g.split("#")
+        hist = HISTORIES[hname][:int(step)]
+    call = f"FullGrid({s['alg_b']}{s['n_b']!r}, {s['alg_o']}{s['n_o']!r}, {_t_string(s['n_t'])!r}, position_grid_cartesian={s['cartesian']})" + \
+        (f" after {list(hist)} on the same object: " if hist else ".") + f"{g0}()"
     try:
         with cl.redirect_stdout(io.StringIO()):
             fg = FullGrid(f"{s['alg_b']}{s['n_b']}", f"{s['alg_o']}{s['n_o']}", _t_string(s["n_t"]), position_grid_cartesian=s["cartesian"])
-            if again:                 # same history as the symbolic run: all getters once, then the one in question again
-                for g0 in GETTERS:
-                    try:
-                        getattr(fg, g0)()
-                    except Exception:  # noqa: BLE001
-                        pass
-            v = getattr(fg, g)() if g in GETTERS else None
+            for h in hist:                 # same history as the symbolic run
+                try:
+                    getattr(fg, h)()
+                except Exception:  # noqa: BLE001
+                    pass
+            v = getattr(fg, g0)() if g0 in GETTERS + POSGETTERS else None
     except ValueError as e:
         return {"reproduced": False, "detail": f"{call} raised ValueError {e} (allowed)"}
     except Exception as e:  # noqa: BLE001
         allowed = s["cartesian"] and s["n_o"] < 3 and type(e).__name__ == "QhullError"
         return {"reproduced": not allowed, "detail": f"{call} raised {type(e).__name__}: {str(e)[:200]}"}
-    if g == "get_full_grid_as_array":
-        ok = tuple(np.shape(v)) == (n, 7)
-    elif g == "get_total_volumes":
-        ok = len(v) == n
-    else:
-        ok = v is not None and tuple(v.shape) == (n, n)
+    ok = _shape_ok(g0, v, n, s["n_o"] * s["n_t"]) if g0 in GETTERS + POSGETTERS else True
     return {"reproduced": not ok, "detail": f"{call} -> shape {np.shape(v) if not hasattr(v, 'shape') else v.shape}"}
 
 
 def finding_key(cex):
     s = cex["shape"]
     kind = "nb23" if s["n_b"] in (2, 3) else "nb%d" % min(s["n_b"], 4)
-    return f"C19:{cex.get('getter')}:{cex.get('exc', 'shape')}:{kind}:nt1={s['n_t'] == 1}:cart={s['cartesian']}"
+    g = str(cex.get('getter'))
+    g = "#".join(g.split("#")[:2])
+    return f"C19:{g}:{cex.get('exc', 'shape')}:{kind}:nt1={s['n_t'] == 1}:cart={s['cartesian']}"
 
 
 def selftest(seed):
